@@ -99,11 +99,15 @@ pub struct Assign {
     /// append-time script for allocations made before the block (the
     /// composer's own initial witnesses)
     pub script: Vec<(usize, Fe)>,
+    /// selectors the INSTANCE emits on its rows when they differ from the compiled
+    /// layout's (the prover must read selectors from the keys, wire values and
+    /// public inputs from the instance)
+    pub inst_q: Option<Vec<[Fe; 11]>>,
 }
 
 impl Assign {
     pub fn new(vals: Vec<[Fe; 4]>, pis: Vec<Fe>) -> Self {
-        Assign { vals, pis, share: None, extra_rows: 0, drop_last: false, script: vec![] }
+        Assign { vals, pis, share: None, extra_rows: 0, drop_last: false, script: vec![], inst_q: None }
     }
 }
 
@@ -133,7 +137,8 @@ fn build(c: &mut Composer, lay: &Layout, asg: &Assign) {
             };
         }
         let pi = if r.has_pi { Some(asg.pis[i]) } else { None };
-        c.verif_raw_gate(r.q, pi, ws);
+        let q = asg.inst_q.as_ref().map(|v| v[i]).unwrap_or(r.q);
+        c.verif_raw_gate(q, pi, ws);
     }
     for _ in 0..asg.extra_rows {
         c.verif_raw_gate(zq, None, [z; 4]);
@@ -292,6 +297,7 @@ pub fn describe(lay: &Layout, asg: &Assign) -> Value {
         "inst_share": asg.share,
         "extra_rows": asg.extra_rows,
         "drop_last": asg.drop_last,
+        "instance_selectors": asg.inst_q.as_ref().map(|q| q.iter().map(|r| r.iter().map(hex).collect::<Vec<_>>()).collect::<Vec<_>>()),
     })
 }
 
